@@ -121,7 +121,16 @@ pub fn render_doc(doc: &DocSpec) -> Vec<u8> {
     }
     let apps: Vec<Value> = doc.apps.iter().map(render_app).collect();
     resp.insert("app".into(), Value::Array(apps));
-    serde_json::to_vec(&json!({ "response": Value::Object(resp) })).unwrap()
+    let body = serde_json::to_vec(&json!({ "response": Value::Object(resp) })).unwrap();
+    let mut out = vec![];
+    if doc.wrap & 1 != 0 {
+        out.extend_from_slice(b")]}'\n");
+    }
+    out.extend_from_slice(&body);
+    if doc.wrap & 2 != 0 {
+        out.extend_from_slice(b" \n\t\r\n");
+    }
+    out
 }
 
 fn render_app(a: &DocApp) -> Value {
@@ -169,7 +178,7 @@ pub fn render_body(body: &BodySpec, req_json: &Value) -> (Vec<u8>, Option<DocSpe
                 .into_iter()
                 .map(|id| DocApp { id, status: "ok".into(), cohort: cohort.clone(), updatecheck: None })
                 .collect();
-            DocSpec { daystart: *daystart, apps }
+            DocSpec { daystart: *daystart, apps, wrap: 0 }
         }
         BodySpec::NoUpdateAll => {
             let apps = req_app_ids(req_json)
@@ -181,7 +190,7 @@ pub fn render_body(body: &BodySpec, req_json: &Value) -> (Vec<u8>, Option<DocSpe
                     updatecheck: Some(UcSpec::status("noupdate")),
                 })
                 .collect();
-            DocSpec { daystart: None, apps }
+            DocSpec { daystart: None, apps, wrap: 0 }
         }
     };
     (render_doc(&doc), Some(doc))
@@ -307,9 +316,14 @@ pub fn answer(w: &mut World, uri: &str, body: &[u8], json: &Value, kind: ReqKind
     if authentic {
         w.genuine.push((status, headers.clone(), rbody.clone()));
     }
-    if !cup_on {
+    if w.cup.is_none() {
         // without CUP every reply counts as "authentic" for the monitors
         authentic = true;
+    } else if cup2key.is_none() {
+        // the client is configured for CUP but sent an exchange the server cannot authenticate: nothing
+        // answered to it is authentic (a client accepting it accepts a forgeable reply)
+        authentic = false;
+        kind_label = "no-cup2key".into();
     }
     Delivered::Reply { status, headers, body: rbody, authentic, etag_kind: kind_label, doc }
 }
